@@ -21,7 +21,7 @@ def mc(module, quick, thorough=None, **kw):
 # design models the property rests on (quick: smaller bounds; thorough: the full bounds)
 MC = {
     "C01": [mc("WM", "MC_WM_k4"), mc("WM", "MC_WM_k4_long", tiers=("thorough",)), mc("RSQ", "MC_RSQ_bs2_quick", "MC_RSQ_bs2_deep"), mc("RSQ", "MC_RSQ_bs4_quick", "MC_RSQ_bs4_deep")],
-    "C02": [mc("HuffWM", "MC_HuffWM_k4_quick", "MC_HuffWM_k4"), mc("HuffWM", "MC_HuffWM_k4_equiv_finished", tiers=("thorough",)), mc("RSQ", "MC_RSQ_bs2_quick", "MC_RSQ_bs2_deep")],
+    "C02": [mc("HuffWM", "MC_HuffWM_k4_quick", "MC_HuffWM_k4"), mc("HuffWM", "MC_HuffWM_k4_codes"), mc("HuffWM", "MC_HuffWM_k4_equiv_finished", tiers=("thorough",)), mc("RSQ", "MC_RSQ_bs2_quick", "MC_RSQ_bs2_deep")],
     "C03": [mc("WM", "MC_WM_k2"), mc("HuffWM", "MC_HuffWM_k2_quick", "MC_HuffWM_k2"), mc("RSBin", "MC_RSBin_wide_quick", "MC_RSBin_wide_deep")],
     "C10": [mc("MC_Clauses", "MC_Clauses_quick", "MC_Clauses", workers=4)],
     "C04": [mc("MC_Clauses", "MC_Clauses_quick", "MC_Clauses", workers=4), mc("RSQ", "MC_RSQ_bs2_quick", "MC_RSQ_bps4"), mc("RSBin", "MC_RSBin_narrow_quick", "MC_RSBin_narrow_deep"), mc("DArr", "MC_DArr_quick", "MC_DArr_deep"),
@@ -33,7 +33,7 @@ MC = {
     "C09": [mc("Pfs", "MC_Pfs_quick", "MC_Pfs"), mc("Pfs", "MC_Pfs_r4", tiers=("thorough",))],
     "C12": [mc("MC_LibIt", "MC_LibIt"), mc("PosIter", "MC_PosIter", workers=6)],
     "C13": [mc("MC_LibQB", "MC_LibQB"), mc("MC_QVec", "MC_QVec"), mc("QLine", "MC_QLine", workers=4)],
-    "C15": [mc("HuffWM", "MC_HuffWM_k4_quick", "MC_HuffWM_k4"), mc("HuffWM", "MC_HuffWM_k2_quick", "MC_HuffWM_k2")],
+    "C15": [mc("HuffWM", "MC_HuffWM_k4_quick", "MC_HuffWM_k4"), mc("HuffWM", "MC_HuffWM_k4_codes"), mc("HuffWM", "MC_HuffWM_k2_quick", "MC_HuffWM_k2")],
     "C17": [mc("Words", "MC_Words", workers=6)],
     "C18": [mc("MC_Conc", "MC_Conc_none", workers=4), mc("MC_Conc", "MC_Conc_atomic_pair", workers=4), mc("MC_Conc", "MC_Conc_torn_single", workers=4), mc("MC_Conc", "MC_Conc_lazy_linear", workers=4)],
     "C19": [mc("MC_BitVecLines", "MC_BitVecLines", "MC_BitVecLines_thorough")],
